@@ -384,7 +384,7 @@ def r3(R):
 
 
 @rule('C01.R4', 'a failed write during vote truncates the data file back to '
-      'the committed end and re-raises', props=['C05'], min_instances=3)
+      'the committed end and re-raises', props=['C05', 'C02'], min_instances=3)
 def r4(R):
     cls = R.prog.cls(FS)
     f = R.method(cls, 'tpc_vote')
